@@ -25,6 +25,10 @@ class SymNd(rnp.ndarray):
         out = rnp.empty(a.shape, dtype=object)
         for idx in rnp.ndindex(a.shape):
             out[idx] = op(a[idx], b[idx])
+        r = ctx.cur()
+        if r is not None and r.decisions is not None and getattr(r, "concrete_masks", False):
+            # fork mode with concrete masks: every element is decided now (forking), the mask is an ordinary bool array
+            return rnp.array([bool(e) for e in out.reshape(-1)], dtype=bool).reshape(out.shape)
         return out.view(SymNd)
 
     def __eq__(self, o): return self._cmp(o, operator.eq)
@@ -70,6 +74,11 @@ class SymNd(rnp.ndarray):
 
     def __getitem__(self, k):
         if self._is_mask(k):
+            r = ctx.cur()
+            if r is not None and r.decisions is not None:
+                # fork mode: decide every mask element, then select for real (the length becomes concrete on this path)
+                conc = rnp.array([bool(e) for e in k.reshape(-1)], dtype=bool).reshape(k.shape)
+                return rnp.ndarray.__getitem__(self, conc)
             return MaskSel(self, k)
         return rnp.ndarray.__getitem__(self, k)
 
